@@ -80,3 +80,41 @@ def sha(b):
 
 def std_decode(raw, fmt):
     return zlib.decompress(raw) if fmt == "zlib" else gzip.decompress(raw)
+
+
+# ------------------------------------------------------------------ readinto targets
+# kind -> item size in bytes; the operation's n is always the BYTE length of the target
+TARGET_KINDS = {"bytearray": 1, "mv": 1, "mvslice": 1, "arrB": 1, "arrH": 2, "arrI": 4, "arrd": 8, "castH": 2,
+                "castI": 4, "castd": 8, "ctypes8": 1, "ctypes16": 2, "ro": 1, "romv": 1}
+
+
+def make_target(kind, n):
+    """a buffer of n bytes (n a multiple of the item size) pre-filled with 0xAA, of the given kind"""
+    import array
+    import ctypes
+    isz = TARGET_KINDS[kind]
+    assert n % isz == 0
+    fill = b"\xaa" * n
+    if kind == "bytearray":
+        return bytearray(fill)
+    if kind == "mv":
+        return memoryview(bytearray(fill))
+    if kind == "mvslice":   # a window into a larger bytearray
+        return memoryview(bytearray(b"\x55\x55" + fill + b"\x55\x55"))[2:2 + n]
+    if kind.startswith("arr"):
+        return array.array(kind[3], fill)
+    if kind.startswith("cast"):
+        return memoryview(bytearray(fill)).cast(kind[4])
+    if kind == "ctypes8":
+        return (ctypes.c_ubyte * n).from_buffer_copy(fill)
+    if kind == "ctypes16":
+        return (ctypes.c_uint16 * (n // 2)).from_buffer_copy(fill)
+    if kind == "ro":
+        return fill                      # bytes: not writable
+    if kind == "romv":
+        return memoryview(fill)          # read-only memoryview
+    raise ValueError(kind)
+
+
+def target_bytes(t):
+    return bytes(t)
